@@ -2728,3 +2728,228 @@ def rule_c18_restore(r):
                             "__setstate__ unpacks (%s): same attributes in the same order" % ", ".join(want))
     if n_cls < 3:
         raise AnalysisError("fewer than three model classes with __init__ and __setstate__ found (%d)" % n_cls)
+
+
+# --------------------------------------------------------------------------------------------- model code: locals are assigned before they are read
+def definit_unit(unit, extra):
+    """Worker: definite assignment for scalar locals of model code (functions defined in models/*.c and their lib files).
+    A local declared without initialiser must be assigned on every path before it is read.  Structured analysis over the
+    clang AST: `if` = intersection of the branches (a branch that returns does not count), `switch` = intersection of the
+    case groups that do not return when there is a default, loops = their body does not count (it may run zero times)
+    unless the loop has the literal form `for (i = 0; i < N; ...)` with N a positive literal, `&x` passed to a call and
+    x as the pointer target of an out-parameter count as assignments.  Arrays and structs are not tracked."""
+    from .. import cfront
+    from ..nf import c_strip
+    from ..ckernel import kids
+    import re
+    out = []
+
+    def lname(n):
+        n = c_strip(n)
+        return n["referencedDecl"]["name"] if n.get("kind") == "DeclRefExpr" else None
+
+    for fname, fn in sorted(unit.functions.items()):
+        body = unit.body(fn)
+        if body is None:
+            continue
+        ff, ll = unit.where(fn)
+        if "/models/" not in (ff or ""):
+            continue
+        tracked = {}
+        for n in cfront.walk(body):
+            if n.get("kind") == "VarDecl" and not [x for x in kids(n) if x.get("kind")]:
+                qt = n.get("type", {}).get("qualType", "")
+                if "[" not in qt and "*" not in qt and qt.split()[-1] in ("double", "int", "float", "long", "unsigned", "int32_t"):
+                    tracked[n["name"]] = n
+        if not tracked:
+            continue
+        reported = set()
+
+        def reads(e, assigned):
+            """walk an expression in evaluation order; report reads of unassigned tracked names; return names assigned"""
+            k = e.get("kind")
+            if k == "BinaryOperator" and e.get("opcode") == "=":
+                a, b = kids(e)
+                new = reads(b, assigned)
+                nm = lname(a)
+                if nm in tracked:
+                    return new | {nm}
+                return new | reads(a, assigned | new)
+            if k == "CompoundAssignOperator" or (k == "UnaryOperator" and e.get("opcode") in ("++", "--")):
+                new = set()
+                for x in kids(e):
+                    new |= reads(x, assigned | new)
+                return new
+            if k == "UnaryOperator" and e.get("opcode") == "&":
+                nm = lname(kids(e)[0])
+                if nm in tracked:
+                    return {nm}            # address taken: handed to a callee as an out slot
+            if k == "BinaryOperator" and e.get("opcode") in ("&&", "||"):
+                a, b = kids(e)
+                new = reads(a, assigned)
+                reads(b, assigned | new)   # right operand may not run: its assignments do not count
+                return new
+            if k == "ConditionalOperator":
+                c, a, b = kids(e)
+                new = reads(c, assigned)
+                na, nb = reads(a, assigned | new), reads(b, assigned | new)
+                return new | (na & nb)
+            if k == "DeclRefExpr":
+                nm = e["referencedDecl"]["name"]
+                if nm in tracked and nm not in assigned and nm not in reported:
+                    reported.add(nm)
+                    f2, l2 = unit.where(e)
+                    out.append(("R-C14-definite-init", "violation", f2 or ff, "%s:%s" % (unit.name, fname), "read of `%s`" % nm, l2 or ll,
+                                "declared without a value at line %s and not assigned on every path that reaches this read: the value "
+                                "is whatever the stack held" % tracked[nm].get("_line", "?")))
+                return set()
+            new = set()
+            for x in kids(e):
+                if isinstance(x, dict) and x.get("kind"):
+                    new |= reads(x, assigned | new)
+            return new
+
+        def run(st, assigned):
+            """-> (assigned after st, falls_through)"""
+            k = st.get("kind")
+            if k == "CompoundStmt":
+                for s in kids(st):
+                    assigned, ft = run(s, assigned)
+                    if not ft:
+                        return assigned, False
+                return assigned, True
+            if k == "DeclStmt":
+                for d in kids(st):
+                    if d.get("kind") == "VarDecl":
+                        for x in kids(d):
+                            if x.get("kind"):
+                                assigned = assigned | reads(x, assigned)
+                        if d["name"] not in tracked:
+                            assigned = assigned | {d["name"]}
+                return assigned, True
+            if k == "ReturnStmt":
+                for x in kids(st):
+                    reads(x, assigned)
+                return assigned, False
+            if k in ("BreakStmt", "ContinueStmt"):
+                return assigned, False
+            if k == "IfStmt":
+                parts = kids(st)
+                a0 = assigned | reads(parts[0], assigned)
+                a1, f1 = run(parts[1], a0)
+                if len(parts) > 2:
+                    a2, f2 = run(parts[2], a0)
+                else:
+                    a2, f2 = a0, True
+                if f1 and f2:
+                    return a1 & a2, True
+                if f1:
+                    return a1, True
+                if f2:
+                    return a2, True
+                return a0, False
+            if k == "ForStmt":
+                parts = st.get("inner", [])
+                init, cond, inc, lbody = parts[0], parts[2], parts[3], parts[4]
+                a0 = assigned
+                if init and init.get("kind"):
+                    a0, _ = run(init, a0) if init.get("kind") == "DeclStmt" else (a0 | reads(init, a0), True)
+                if cond and cond.get("kind"):
+                    a0 = a0 | reads(cond, a0)
+                ab, _ = run(lbody, a0)
+                if inc and inc.get("kind"):
+                    reads(inc, ab)
+                # a counted loop `i = 0; i < N` with a positive literal N runs its body at least once
+                ctxt = re.sub(r"\s+", "", c_text_(cond)) if cond and cond.get("kind") else ""
+                itxt = re.sub(r"\s+", "", c_text_(init)) if init and init.get("kind") else ""
+                m = re.match(r"^(\w+)<(\d+)$", ctxt)
+                if m and int(m.group(2)) > 0 and re.search(r"\b%s=0;?$" % re.escape(m.group(1)), itxt) and \
+                        not any(x.get("kind") in ("BreakStmt", "ContinueStmt") for x in cfront.walk(lbody)):
+                    return ab, True
+                return a0, True
+            if k in ("WhileStmt",):
+                c, lbody = kids(st)[0], kids(st)[-1]
+                a0 = assigned | reads(c, assigned)
+                run(lbody, a0)
+                return a0, True
+            if k == "DoStmt":
+                lbody, c = kids(st)[0], kids(st)[-1]
+                ab, _ = run(lbody, assigned)
+                ab = ab | reads(c, ab)
+                return ab, True
+            if k == "SwitchStmt":
+                parts = kids(st)
+                a0 = assigned | reads(parts[0], assigned)
+                sbody = parts[-1]
+                groups, cur, has_default = [], None, False
+                for s in kids(sbody):
+                    s2 = s
+                    is_label = False
+                    while s2.get("kind") in ("CaseStmt", "DefaultStmt"):
+                        is_label = True
+                        if s2["kind"] == "DefaultStmt":
+                            has_default = True
+                        s2 = kids(s2)[-1]
+                    if is_label:
+                        # fall-through from the previous group keeps its assignments only if it did not end
+                        if cur is None or not cur[1]:
+                            cur = [a0, True]
+                            groups.append(cur)
+                    if cur is None:
+                        continue
+                    if cur[1]:
+                        a, ft = run(s2, cur[0])
+                        if s2.get("kind") == "BreakStmt":
+                            cur[1] = False
+                            cur.append("break")
+                        else:
+                            cur[0], cur[1] = a, ft
+                            if not ft and any(x.get("kind") == "BreakStmt" for x in cfront.walk(s2)) and s2.get("kind") != "ReturnStmt":
+                                cur.append("break")
+                exits = [g[0] for g in groups if g[1] or "break" in g[2:]]
+                if not has_default:
+                    exits.append(a0)
+                if not exits:
+                    return a0, False
+                res = exits[0]
+                for e_ in exits[1:]:
+                    res = res & e_
+                return res, True
+            # expression statement and anything else
+            if k and (k.endswith("Operator") or k.endswith("Expr") or k.endswith("Literal")):
+                return assigned | reads(st, assigned), True
+            new = set()
+            for x in kids(st):
+                if isinstance(x, dict) and x.get("kind"):
+                    new |= reads(x, assigned | new)
+            return assigned | new, True
+
+        params = {p["name"] for p in unit.params(fn)}
+        try:
+            run(body, set(params))
+        except RecursionError:
+            out.append(("R-C14-definite-init", "note", ff, "%s:%s" % (unit.name, fname), "not analysed", ll, "nesting too deep"))
+            continue
+        if not reported:
+            out.append(("R-C14-definite-init", "ok", ff, "%s:%s" % (unit.name, fname), "locals without initialiser: %s" % ", ".join(sorted(tracked)), ll,
+                        "each is assigned on every path before it is read"))
+    return out
+
+
+_definit_cache = None
+
+
+def rule_definit(r):
+    global _definit_cache
+    if _definit_cache is None:
+        from .. import cfront
+        _definit_cache = cfront.map_units("sa.rules.extra3:definit_unit")
+    seen = set()
+    for unit, rows in sorted(_definit_cache.items()):
+        for row in rows:
+            _, status, f, fn, construct, line, detail = row
+            key = (f, line, construct, fn.split(":")[-1])
+            if key in seen:
+                continue
+            seen.add(key)
+            getattr(r, status)(f, fn, construct, line, detail)
